@@ -18,7 +18,10 @@ Inductive ccase :=
 (* wire path given to url.Parse("http://h"+wire): None = error, else Path, RawPath, EscapedPath() *)
 | CSetPath (wire : bstr) (r : option (bstr * bstr * bstr))
 (* (&url.URL{Path, RawPath}).EscapedPath() on arbitrary fields *)
-| CEscapedPath (path raw res : bstr).
+| CEscapedPath (path raw res : bstr)
+(* Handle(method, text) on a fresh muxer, then a request that reaches the handler: the pattern
+   chi was given (last entry of RoutePatterns) and what ResolvePattern returns *)
+| CRewrite (text chipat resolved : bstr).
 
 Definition ccase_ok (c : ccase) : bool :=
   match c with
@@ -32,6 +35,13 @@ Definition ccase_ok (c : ccase) : bool :=
     | _, _ => false
     end
   | CEscapedPath path raw res => beq (escaped_path path raw) res
+  | CRewrite text chipat resolved =>
+    let (p, n) := rewrite_pattern text in
+    beq p chipat
+    && beq (match n with
+            | Some n => firstn (length p - 2) p ++ slash :: lbrace :: star :: n ++ [rbrace]
+            | None => p
+            end) resolved
   end.
 
 Definition codec_mismatches (cs : list (N * ccase)) : list N :=
@@ -138,8 +148,23 @@ Fixpoint pre_ok (model observed : list (bstr * list (bstr * bstr))) : bool :=
   | _, _ => false
   end.
 
+(* chi's precedence as modelled (chi_pick) predicts the handler chi chose *)
+Definition reached_ok (m : mux) (c : rcase) : bool :=
+  match set_path (rc_wire c) with
+  | None => true
+  | Some (path, raw) =>
+    let segs := path_segs (route_path path raw) in
+    match chi_pick segs (cands m (rc_meth c) segs), rc_reached c with
+    | Some r, Some h => Nat.eqb (r_h r) h
+    | None, None => true
+    | Some _, None => smart_redirects m (rc_meth c) (match_path path raw)
+    | None, Some _ => false
+    end
+  end.
+
 Definition rcase_ok (c : rcase) : bool :=
   let (m, panics) := build (rc_ops c) 0 new_muxer in
+  reached_ok m c &&
   match serve (pick_obs (rc_reached c)) m (rc_meth c) (rc_wire c) (rc_pre c)
               (rc_acc_raw c) (rc_acc_parsed c), rc_obs c with
   | None, None => true
